@@ -1069,10 +1069,9 @@ Proof.
   - destruct (Z.eqb_spec (Z.of_nat i1) (Z.of_nat i2)); [lia|]. run. rewrite Hg.
     destruct gi as [g|]; cbn [enc_gi popt]; run.
     + rewrite Hi. run. rewrite (prim_getitem tbl kids mro msg), X1.
-      run. rewrite Hg. cbn [enc_gi popt]. run. unfold PInt. rewrite mem_nat_enc'.
-      destruct (Compile.mem_nat i2 g); run.
-      * rewrite Hi. reflexivity.
-      * rewrite (prim_raise' tbl kids mro msg). reflexivity.
+      run. rewrite Hg. cbn [enc_gi popt]. run. unfold PInt. rewrite mem_nat_enc'; try exact pts.
+      destruct (Compile.mem_nat i2 g); run;
+        first [rewrite Hi; reflexivity | rewrite (prim_raise' tbl kids mro msg); reflexivity].
     + rewrite (prim_raise' tbl kids mro msg). reflexivity.
 Qed.
 
